@@ -132,7 +132,29 @@ def expand_dims(x, axis):
     return np.expand_dims(_obj(x), axis).view(TArr)
 
 
-jnp = types.SimpleNamespace(asarray=asarray, array=asarray, concatenate=concatenate, zeros=zeros, zeros_like=zeros_like, ones=ones, expand_dims=expand_dims, ndarray=object)
+class _JnpShim:
+    """jnp as seen by integrate.py / jax_utils.py under the engine: the listed functions, and - for anything else - the numpy
+    function of the same name applied to object arrays.  Purely STRUCTURAL functions (resize, pad, stack, reshape, tile, roll,
+    flip, take, transpose, ...) work on opaque terms as they do on numbers; anything that computes with the values raises on an
+    opaque term (no arithmetic, no truth value) and ends as an engine limit."""
+    ndarray = object
+
+    def __init__(self, **fns):
+        self.__dict__.update(fns)
+
+    def __getattr__(self, name):
+        f = getattr(np, name, None)
+        if f is None or not callable(f):
+            raise AttributeError(name)
+
+        def call(*a, **k):
+            conv = lambda x: _obj(x) if isinstance(x, (TArr, np.ndarray, list)) or type(x).__module__.split(".")[0] in ("jax", "jaxlib") else x
+            r = f(*[conv(x) for x in a], **{kk: conv(v) for kk, v in k.items() if kk not in ("dtype",)})
+            return r.view(TArr) if isinstance(r, np.ndarray) else r
+        return call
+
+
+jnp = _JnpShim(asarray=asarray, array=asarray, concatenate=concatenate, zeros=zeros, zeros_like=zeros_like, ones=ones, expand_dims=expand_dims)
 
 
 def tree_map(f, *trees):
